@@ -1,7 +1,7 @@
 (** * Layer H — AdaptiveCache (src/lru/adaptive.rs) on the heap, definitions: four RawLRU lists
     (recent, recent_evict, frequent, frequent_evict) in one heap, written over the heap-level
     primitives exactly as the Rust code is written over RawLRU. *)
-From VF Require Import Base Heap.
+From VF Require Import Base Iter Heap HeapIterDef.
 From Coq Require Import List Arith.
 Import ListNotations.
 Local Open Scope nat_scope.
@@ -154,7 +154,12 @@ Definition ha_drop (h : heap) (s : harc) : hres heap :=
 
 Inductive aop :=
 | APut (k : key) (v : val) | AGetMut (k : key) (w : option val) | APeek (k : key)
-| APeekMut (k : key) (w : option val) | AContains (k : key) | ARemove (k : key) | APurge.
+| APeekMut (k : key) (w : option val) | AContains (k : key) | ARemove (k : key) | APurge
+| AIter (i : Z) (kd : iter_kind) (pre pa pb : list req).   (* the iterators over one of the four lists *)
+
+Definition ha_list (s : harc) (i : Z) : option hlru :=
+  if Z.eqb i 0 then Some (ha_t1 s) else if Z.eqb i 1 then Some (ha_b1 s)
+  else if Z.eqb i 2 then Some (ha_t2 s) else if Z.eqb i 3 then Some (ha_b2 s) else None.
 
 Definition ha_step (h : heap) (s : harc) (o : aop) : hres (heap * harc * hout) :=
   match o with
@@ -165,6 +170,11 @@ Definition ha_step (h : heap) (s : harc) (o : aop) : hres (heap * harc * hout) :
   | AContains k => hdo b <- ha_contains h s k; HOk (h, s, OBool b)
   | ARemove k => hdo (h1, s1, r) <- ha_remove h s k; HOk (h1, s1, OVal r)
   | APurge => hdo (h1, s1) <- ha_purge h s; HOk (h1, s1, OUnit)
+  | AIter i kd pre pa pb =>
+    match ha_list s i with
+    | Some ql => hdo (h1, ys) <- h_iter_script h ql kd pre pa pb; HOk (h1, s, OIter kd ys)
+    | None => HOk (h, s, OUnit)
+    end
   end.
 
 Fixpoint ha_run (h : heap) (s : harc) (os : list aop) : hres (heap * harc * list hout) :=
